@@ -29,3 +29,30 @@ def suffixName : Nat → String
 def validCount (count : Nat) : Bool := count != 0 && count % 3 == 0
 
 end Homonim
+
+namespace Homonim
+
+/-- a rasterio profile as an association list key ↦ value (first binding wins) -/
+abbrev Profile := List (String × String)
+
+def Profile.get (p : Profile) (k : String) : Option String := (p.find? fun e => e.1 == k).map (·.2)
+
+/-- set / replace a key -/
+def Profile.set (p : Profile) (k v : String) : Profile := (k, v) :: p.filter fun e => e.1 != k
+
+/-- the keys `combine_profiles` keeps from the input profile when the driver changes -/
+def copyKeys : List String := ["driver", "width", "height", "count", "dtype", "crs", "transform"]
+
+/-- `utils.combine_profiles`: start from the input profile (only the non-driver-specific keys when the configured driver
+    differs), then overwrite with the flattened configuration profile (`driver`, `dtype`, `nodata` and the nested creation
+    options, in that order) -/
+def combineProfiles (inP : Profile) (cfgDriver : String) (cfgFlat : List (String × String)) : Profile :=
+  let base : Profile :=
+    if (inP.get "driver").map String.toLower != some cfgDriver.toLower then inP.filter fun e => copyKeys.contains e.1
+    else inP
+  cfgFlat.foldl (fun p kv => p.set kv.1 kv.2) base
+
+/-- vertical flip of an image stored bottom-to-top (what the north-up VRT undoes) -/
+def flipRows {α : Type} (rows : List (List α)) : List (List α) := rows.reverse
+
+end Homonim
